@@ -18,9 +18,13 @@ package redisemu
 //@ func respBlobError.String
 //@ trusted string conversion
 //@ pure
+// C15: the RESP2 text of a double is the same shortest exact decimal the RESP3
+// double reply carries (serializeDouble formats with the same call)
 //@ func respDouble.String
-//@ trusted string conversion
+//@ prop C15
+//@ safetyprop none
 //@ pure
+//@ ensures internal [C15] exact.text: result == "inf" || result == "-inf" || result == strconv.FormatFloat(f, 'f', -1, 64)
 //@ func respBigNumber.String
 //@ trusted string conversion
 //@ pure
@@ -142,3 +146,10 @@ package redisemu
 //@ modifies ghost.gLineBroken Builder alloc
 //@ use respLine.clean
 //@ ensures [C01] one.line: !gLineBroken
+
+//@ func respValue.serializeDouble
+//@ prop C15
+//@ safetyprop none
+//@ requires sb != nil
+//@ modifies Builder alloc ghost.gLineBroken
+//@ assertafter "text := strconv.FormatFloat(" [C15] exact.text: text == strconv.FormatFloat(f, 'f', -1, 64)
